@@ -582,9 +582,14 @@ class InterestNameField(Field):
     def parse_from(self, instance, markers: dict, wire: BinaryStr, offset: int, length: int, offset_btl: int):
         name = Name.decode(wire, offset_btl)[0]
         sig_cover_part = self.sig_covered_part.get_arg(markers)
+        has_digest = False
         for ele in name:
             typ = Component.get_type(ele)
             if typ == Component.TYPE_PARAMETERS_SHA256:
+                # Only one component is exempt from the signature: a second one would be an unsigned part of the name
+                if has_digest:
+                    raise DecodeError('more than one ParametersSha256DigestComponent in the Interest name')
+                has_digest = True
                 self.digest_buffer.set_arg(markers, Component.get_value(ele))
             else:
                 sig_cover_part.append(ele)
